@@ -659,6 +659,42 @@ example : CSem2.WT ex11 := by decide
 example : CSem2.runC true 30 ex11 [7] = some 16 := by decide
 example : CSem2.runC true 30 ex11 [4] = some 12 := by decide
 
+/-! ## Array initialisers
+
+  `T a[n] = {e₀, e₁, [5] = e₅, …};` is `adecl` followed by one `CSem2.Stmt.ainit` per element in increasing
+  order: an element without initialiser gets the constant `0` (6.7.9p21), the initialisers are expressions
+  of `Expr3` converted to the element type.  The lowering is `funcinit`'s: for every element the address
+  (`add %slot, offset`; the slot itself for offset 0), then the value, then the store — for the zeros that
+  is what `zero()` emits for an array of integers (one store of the element's size per element). -/
+
+/-- `long f(int x) { long a[4] = {[1] = x, 7}; return a[0] + a[1] + a[2] + a[3]; }` -/
+def ex12 : CSem2.Func :=
+  { name := "ini", ret := .long, params := [.int], locals := [.long], lcnts := [4],
+    body :=
+      .seq (.adecl 1 .long 4 2)
+      (.seq (.ainit 1 .long 4 2 0 (.const .long 0))
+      (.seq (.ainit 1 .long 4 2 1 (.cast .long (.param .int 0)))
+      (.seq (.ainit 1 .long 4 2 2 (.cast .long (.const .int 7)))
+      (.seq (.ainit 1 .long 4 2 3 (.const .long 0))
+        (.ret (.bin .add .long (.bin .add .long (.bin .add .long
+          (.idx .long 1 4 2 (.const .int 0)) (.idx .long 1 4 2 (.const .int 1)))
+          (.idx .long 1 4 2 (.const .int 2))) (.idx .long 1 4 2 (.const .int 3)))))))) }
+example : CSem2.WT ex12 := by decide
+example : CSem2.runC true 30 ex12 [-5] = some 2 := by decide
+
+/-- the theorem applied to `ex12` -/
+example : ∃ fuel₀, ∀ fuel, fuel₀ ≤ fuel →
+    runFunc (prog (Lower2.emitFunc true 0 ex12)) noExt "ini" (argsOf ex12.params [-5]) fuel =
+      ⟨#[], .ret (.scalar ⟨.l, 2⟩)⟩ := by
+  have hval : (argOf ex12.ret 2).2 = ⟨.l, 2⟩ := by decide
+  rw [← hval]
+  exact lower2_correct_exact true 0 ex12 [-5] 2 noExt (by decide) rfl
+    ⟨rfl, by
+      intro i t v ht hv
+      match i, ht, hv with
+      | 0, ht, hv => cases ht; cases hv; decide⟩
+    (by decide) (by decide) 30 (by decide)
+
 /-! ## Read-only array parameters
 
   `T f(const int p[3], …)`: a parameter declared as an array is a pointer (6.7.6.3p7); the fragment has
